@@ -727,3 +727,180 @@ func writesThrough(p *core.Prog, t types.Type, stages ...*stage) string {
 	}
 	return ""
 }
+
+// ---------------------------------------------------------------------------
+// I-recheck — interning is atomic
+
+// RuleIRecheck — a registry publishes a freshly allocated object into a
+// guarded map only after a membership test made under the same exclusive
+// acquisition of the mutex: between the Lock() and the insertion there is a
+// test (comma-ok lookup of a guarded map, or a boolean-returning call on a
+// guarded container) whose "found" branch cannot reach the insertion. With
+// the test made only under the read lock (released before Lock), two
+// goroutines that miss at the same time both insert: one name, two objects —
+// and everything keyed by the interned pointer (positions, prices, the
+// checker's accounts) splits in two.
+func RuleIRecheck(c *core.Ctx) {
+	const rule = "I-recheck"
+	p := c.P
+	n := 0
+	for _, g := range guardedTable {
+		mutexF := p.Field(g.pkg, g.typ, g.mutex)
+		if mutexF == nil {
+			c.Anchor(rule, g.pkg+"."+g.typ+"."+g.mutex)
+			continue
+		}
+		fields := map[*types.Var]bool{}
+		for _, f := range g.fields {
+			if fv := p.Field(g.pkg, g.typ, f); fv != nil {
+				fields[fv] = true
+			}
+		}
+		guardedValue := func(v ssa.Value) bool {
+			f, _ := containerRoot(v)
+			return f != nil && fields[f]
+		}
+		// helpers that insert without locking: function -> index of the inserted parameter
+		helpers := map[*ssa.Function]bool{}
+		for _, fn := range p.SrcFuncs() {
+			if core.PkgPathOf(fn) != g.pkg || fn.Parent() != nil {
+				continue
+			}
+			takesLock := false
+			core.EachInstr(fn, func(ins ssa.Instruction) {
+				if call, ok := ins.(ssa.CallInstruction); ok {
+					if callee := call.Common().StaticCallee(); callee != nil && core.PkgPathOf(callee) == "sync" && callee.Name() == "Lock" {
+						takesLock = true
+					}
+				}
+			})
+			if takesLock {
+				continue
+			}
+			core.EachInstr(fn, func(ins ssa.Instruction) {
+				if mu, ok := ins.(*ssa.MapUpdate); ok && guardedValue(mu.Map) {
+					for v := range originSet(p, mu.Value, 0) {
+						if _, isParam := v.(*ssa.Parameter); isParam {
+							helpers[fn] = true
+						}
+					}
+				}
+			})
+		}
+		var fresh func(v ssa.Value) bool
+		fresh = func(v ssa.Value) bool {
+			for x := range originSet(p, v, 0) {
+				if al, ok := x.(*ssa.Alloc); ok && al.Heap {
+					if _, isStruct := al.Type().Underlying().(*types.Pointer).Elem().Underlying().(*types.Struct); isStruct {
+						return true
+					}
+				}
+			}
+			// a load of a location into which the same function stores a fresh object
+			if ld, ok := v.(*ssa.UnOp); ok && ld.Op == token.MUL {
+				found := false
+				core.EachInstr(ld.Parent(), func(ins ssa.Instruction) {
+					if st, ok := ins.(*ssa.Store); ok && st.Addr != ld.X && p.SameExpr(st.Addr, ld.X) {
+						if _, isAlloc := st.Val.(*ssa.Alloc); isAlloc {
+							found = true
+						}
+					} else if ok && st.Addr == ld.X {
+						if _, isAlloc := st.Val.(*ssa.Alloc); isAlloc {
+							found = true
+						}
+					}
+				})
+				return found
+			}
+			return false
+		}
+		for _, fn := range p.SrcFuncs() {
+			if core.PkgPathOf(fn) != g.pkg || g.ctors[core.FuncName(fn)] || helpers[fn] {
+				continue
+			}
+			// exclusive acquisitions in fn
+			var locks []ssa.Instruction
+			core.EachInstr(fn, func(ins ssa.Instruction) {
+				call, ok := ins.(*ssa.Call)
+				if !ok {
+					return
+				}
+				callee := call.Call.StaticCallee()
+				if callee == nil || core.PkgPathOf(callee) != "sync" || callee.Name() != "Lock" || len(call.Call.Args) == 0 {
+					return
+				}
+				if fa, ok := call.Call.Args[0].(*ssa.FieldAddr); ok && core.FieldOf(fa) == mutexF {
+					locks = append(locks, call)
+				}
+			})
+			core.EachInstr(fn, func(ins ssa.Instruction) {
+				var inserted ssa.Value
+				what := ""
+				switch x := ins.(type) {
+				case *ssa.MapUpdate:
+					if guardedValue(x.Map) {
+						f, _ := containerRoot(x.Map)
+						inserted, what = x.Value, "insert into "+p.FieldRef(f)
+					}
+				case *ssa.Call:
+					if callee := x.Call.StaticCallee(); callee != nil && helpers[callee] {
+						for _, a := range x.Call.Args[1:] {
+							if fresh(a) {
+								inserted = a
+							}
+						}
+						what = "insert through " + callee.Name()
+					}
+				}
+				if inserted == nil || !fresh(inserted) {
+					return
+				}
+				n++
+				key := fmt.Sprintf("%s:%s of a new object follows a membership test under the same Lock", core.FuncName(fn), what)
+				ok := false
+				for _, l := range locks {
+					if !core.Dominates(l, ins) {
+						continue
+					}
+					// a test between l and ins
+					for _, b := range fn.Blocks {
+						iff, isIf := b.Instrs[len(b.Instrs)-1].(*ssa.If)
+						if !isIf || !core.Dominates(l, iff) || !b.Dominates(ins.Block()) {
+							continue
+						}
+						isTest := false
+						for v := range originSet(p, iff.Cond, 0) {
+							switch t := v.(type) {
+							case *ssa.Lookup:
+								if t.CommaOk && guardedValue(t.X) {
+									isTest = true
+								}
+							case *ssa.Call:
+								if t.Call.IsInvoke() {
+									continue
+								}
+								for _, a := range t.Call.Args {
+									if guardedValue(a) {
+										isTest = true
+									}
+								}
+							}
+						}
+						if !isTest {
+							continue
+						}
+						if ctl, _ := core.Controls(b, ins.Block()); ctl {
+							ok = true
+						}
+					}
+				}
+				if ok {
+					c.Ob(rule, key, ins.Pos(), core.FuncName(fn), core.Discharged, "membership re-tested after Lock(); the found branch does not reach the insertion")
+				} else {
+					c.Ob(rule, key, ins.Pos(), core.FuncName(fn), core.Violated, "a freshly allocated object is inserted under the write lock without re-testing membership under that lock: two goroutines that missed under the read lock both insert, so one name gets two objects and everything keyed by the interned pointer splits")
+				}
+			})
+		}
+	}
+	c.Floor(rule, 2)
+}
